@@ -4,6 +4,7 @@ pub mod api;
 pub mod consts;
 pub mod crc;
 pub mod de;
+pub mod derive;
 pub mod ocf;
 pub mod schema;
 pub mod ser;
